@@ -433,6 +433,8 @@ func (v *vfCrashVerifier) verify(s vfSnap) {
 	cmd := exec.Command(os.Args[0], "-mode", "db.crashb", "-args", string(args), "-work", filepath.Join(s.Dir, "..", "bwork"))
 	var logbuf bytes.Buffer
 	cmd.Stdout, cmd.Stderr = &logbuf, &logbuf
+	// many short-lived recovery processes run side by side: two scheduler threads each are plenty
+	cmd.Env = append(os.Environ(), "GOMAXPROCS=2")
 	done := make(chan error, 1)
 	if err := cmd.Start(); err != nil {
 		res.Inconc("cannot start the recovery child: " + err.Error())
